@@ -12,6 +12,7 @@ import (
 	. "verifharness/h"
 
 	"github.com/smartcontractkit/libocr/offchainreporting2plus/ocr3types"
+	ocr2plustypes "github.com/smartcontractkit/libocr/offchainreporting2plus/types"
 
 	ocr2keepers "github.com/smartcontractkit/chainlink-automation/pkg/v3"
 	common "github.com/smartcontractkit/chainlink-common/pkg/types/automation"
@@ -21,9 +22,18 @@ import (
 // histories (two forks of different length) while observations are built. "Block history is the
 // leading 256 entries of the node's latest block-history view": every observation must carry a prefix
 // of ONE delivered history, never a mixture of two.
-func TestC08HistRace(t *testing.T) {
-	dir := OutDir(t, "C08")
+func TestC08HistRace(t *testing.T) { runHistRace(t, "C08") }
+
+// TestC03HistRace: the same run judged by C03's clause - every observation the node produced is accepted by a peer's
+// ValidateObservation (a mixture of two histories repeats block numbers) and is within the length limit.
+func TestC03HistRace(t *testing.T) { runHistRace(t, "C03") }
+
+func runHistRace(t *testing.T, prop string) {
+	dir := OutDir(t, prop)
 	nd := NewNode(t, NodeOpts{N: 4, F: 1})
+	peer := NewNode(t, NodeOpts{N: 4, F: 1, Oracle: 2})
+	defer peer.Plugin.Close()
+	rejected, tooLong := 0, 0
 	mk := func(fork, n int) common.BlockHistory {
 		var h common.BlockHistory
 		for i := 0; i < n; i++ {
@@ -51,6 +61,13 @@ func TestC08HistRace(t *testing.T) {
 		ob, err := nd.Plugin.Observation(context.Background(), ocr3types.OutcomeContext{SeqNr: uint64(i + 1)}, nil)
 		if err != nil {
 			t.Fatal(err)
+		}
+		if verr := peer.Plugin.ValidateObservation(context.Background(), ocr3types.OutcomeContext{SeqNr: uint64(i + 1)}, nil,
+			ocr2plustypes.AttributedObservation{Observation: ob, Observer: 0}); verr != nil {
+			rejected++
+		}
+		if len(ob) > ocr2keepers.MaxObservationLength {
+			tooLong++
 		}
 		var o ocr2keepers.AutomationObservation
 		if err := gojson.Unmarshal(ob, &o); err != nil {
@@ -98,6 +115,10 @@ func TestC08HistRace(t *testing.T) {
 	var viol []any
 	if mixed > 0 {
 		viol = append(viol, map[string]any{"kind": "observation carries a block history that is not a prefix of any delivered history", "count": mixed, "of": n, "example_numbers": example})
+	}
+	if rejected > 0 || tooLong > 0 {
+		viol = append(viol, map[string]any{"kind": "an observation the node produced while block histories kept arriving is rejected by a peer's ValidateObservation / exceeds the length limit",
+			"rejected": rejected, "too_long": tooLong, "of": n})
 	}
 	WriteJSON(t, filepath.Join(dir, "direct_histrace.json"), map[string]any{
 		"evaluations": n, "nontrivial_keys": []string{"histrace-a", "histrace-b"}, "violations": viol,
